@@ -17,7 +17,7 @@ const relax = 1.0 + 1.0/1099511627776.0 // 1 + 2^-40: tier-R invariants are indu
 func verifVegasState() (l *VegasLimit, hi int) {
 	initial := verif.Int("initial")
 	maxC := verif.Int("max")
-	smoothing := verifSmoothings[verif.Choice("smoothing", len(verifSmoothings))]
+	smoothing := verifSmoothings[verif.Choice("smoothing", verif.Tiered(2, len(verifSmoothings)))]
 	probeMult := verif.Int("probeMult")
 	verif.Assume(initial >= 1 && initial < 1<<31 && maxC >= 1 && maxC < 1<<31)
 	verif.Assume(smoothing > 0 && smoothing <= 1)
